@@ -39,6 +39,8 @@ type Obligation struct {
 type Cont func(st *State, fr *Frame, ret Val)
 
 type Exec struct {
+	activeClass map[int]bool // channel classes whose message invariant is assumed (and proved) in this run
+	inRun map[string]bool // functions verified in this run (nil = all)
 	prog         *Program
 	specs        *Specs
 	nfresh       int
@@ -322,6 +324,7 @@ func (ex *Exec) load(st *State, p Val) Val {
 	v := ex.mkVal(el, t)
 	v.Origin = p.Arr
 	v.OriginRef = p.T
+	ex.chanClassLoad(st, p.Arr, el, t)
 	if strings.HasPrefix(p.Arr, "global.") {
 		ex.globalFacts(st, p.T, t, el)
 	}
@@ -377,6 +380,7 @@ func (ex *Exec) store(st *State, p Val, v Val) {
 	if so == "" {
 		so = "Int"
 	}
+	ex.chanClassStore(st, p.Arr, el, v.T)
 	st.write(p.Arr, so, p.T, v.T)
 	if strings.HasPrefix(p.Arr, "arr.") {
 		ex.cellVals[p.Arr+"@"+p.T] = v
@@ -425,7 +429,9 @@ func (ex *Exec) zeroObject(st *State, p Val) {
 // ---------- obligations ----------
 
 func (ex *Exec) oblige(st *State, kind, name string, labels []string, goal string, cl *Clause, pos string) *Obligation {
-	if ex.propFilter != nil && !ex.propFilter(labels) {
+	// an unlabelled contract clause is assumed wherever it applies, so it is proved in every
+	// property's run; labelled ones only in the runs of the properties they name
+	if ex.propFilter != nil && !(cl != nil && len(labels) == 0) && !ex.propFilter(labels) {
 		return nil
 	}
 	ob := &Obligation{ID: len(ex.obls), Func: ex.curKey, Name: name, Kind: kind, Labels: labels, Goal: goal,
